@@ -205,6 +205,7 @@ func (e *Engine) verifyFuncMode(c *Contract, mode string) (rep *FuncReport) {
 	s.ghostSet(st, "evlast", zeroOfSort(arrSort(SInt)))
 	s.ghostSet(st, "evcount", zeroOfSort(arrSort(SInt)))
 	fr := &Frame{sess: s, fn: fn, depth: 0, top: true, contract: c, stack: []*ssa.Function{fn}, oblPfx: short, nSafety: map[string]int{}}
+	s.topFrame = fr
 	for _, p := range fn.Params {
 		v := Val{Typ: p.Type()}
 		for _, l := range shape(p.Type()) {
